@@ -381,7 +381,7 @@ def aggregate_stage(ctx, n_cases):
 def gen_e2e_case(rng):
     noise = rng.choice(["spam", "spam", "amplitude", "detuning", "register", "spam+amplitude", "none", "dephasing"])
     return {"backend": rng.choice(["sv", "mps"]), "n": rng.choice([2, 3]), "noise": noise,
-            "ntraj": rng.choice([1, 2, 3, 5, 8, 13, 20, 50]) if noise != "none" else rng.choice([1, 4]),
+            "ntraj": rng.choice([1, 2, 3, 5, 8, 13, 20, 50]) if noise not in ("none", "dephasing") else rng.choice([1, 4]),
             "eta": rng.choice([0.2, 0.5, 0.8]), "shots": rng.choice([10, 100]), "seed": rng.randrange(2 ** 31)}
 
 
@@ -396,7 +396,7 @@ def _noise_model(case):
     if k == "detuning":
         kw.update(detuning_sigma=0.5)
     if k == "register":
-        kw.update(register_sigma_xy=0.2)
+        kw.update(temperature=50.0, trap_waist=1.0, trap_depth=150.0)   # noise types: doppler + register
     if k == "dephasing":
         kw.update(dephasing_rate=0.2)
     if not kw:
@@ -510,13 +510,14 @@ def corpus_cases():
 
 
 def run(ctx):
+    warnings.showwarning = lambda *a, **k: None   # pulser re-enables "Skipping aggregation" warnings inside aggregate
     common.coq_make(["Model/Aggregate.vo"])
     common.standard_proof_stage(ctx, "C34", ["Properties/C34.vo"])
     expansion_stage(ctx, ctx.n(25, 300))
-    aggregate_stage(ctx, ctx.n(40, 600))
+    aggregate_stage(ctx, ctx.n(30, 500))
     for c in corpus_cases():
         check_e2e(ctx, c)
-    for _ in range(ctx.n(24, 400)):
+    for _ in range(ctx.n(12, 250)):
         check_e2e(ctx, gen_e2e_case(ctx.rng))
     ctx.rule = ("(a) reps lists of 0-8 trajectories with reps 0..50: real get_sequences with scripted noisy_samples vs "
                 "`expand` (order, count, one extraction per trajectory, tensor shared exactly between repetitions); "
